@@ -183,7 +183,7 @@ def check_program(ctx, name, prog, built, results):
 
 def run(ctx):
     build.ensure_toolchain("rel")
-    nprog = int(ctx.opts.get("programs", ctx.pick(10, 160)))
+    nprog = int(ctx.opts.get("programs", ctx.pick(10, 100)))
     ncases = int(ctx.opts.get("cases", 36))
     ctx.rule = ("case = one generated function chain (1-5 links of callee shapes) in which exactly one operation of a chosen trap kind fails at a "
                 "generator-known line, run on one code generator and collector; distinct = distinct (trap kind, shape of the failing "
